@@ -12,20 +12,29 @@
 #define MODE 0
 #endif
 #define NS 5
+#ifndef LEN
+#define LEN 255
+#endif
 #define NL 258
 void harness (void)
 {
+  /* (a final mandatory witness is at the end) */
   static BusRegistry reg; static struct DBusHashTable ht;
   static char nm[NL + 1];
   DBusString name; DBusError err; dbus_uint32_t res = 99; dbus_bool_t ok; int len, i, want, release = vf_bool ();
   reg.refcount = 1; reg.context = (BusContext *) &reg; reg.service_hash = &ht; reg.service_pool = &vf_sp; reg.owner_pool = &vf_op;
   cfg_limit = 1000; policy_allows_own = 1;
+#if MODE == 1
+  /* the own-policy denies: a name that passes validation is then refused with AccessDenied before anything is
+   * copied or looked up, so the route's validity verdict shows in the error name at no cost */
+  policy_allows_own = 0; release = 0;
+#endif
 #if MODE == 0
   len = vf_range (0, NS);
   for (i = 0; i < NS; i++) { nm[i] = (char) vf_u8 (); if (i < len) VF_ASSUME (nm[i] != 0); }
   nm[len] = 0;
 #else
-  len = vf_range (253, 257);
+  len = LEN;          /* concrete per job: 254, 255, 256 (R4) */
   nm[0] = 'a'; nm[1] = '.';
   for (i = 2; i < NL; i++) nm[i] = 'b';
   nm[len] = 0;
@@ -35,6 +44,14 @@ void harness (void)
   if (release) ok = bus_registry_release_service (&reg, vf_conn[0], &name, &res, (BusTransaction *) &reg, &err);
   else ok = bus_registry_acquire_service (&reg, vf_conn[0], &name, 0, &res, (BusTransaction *) &reg, &err);
   want = ref_valid_bus_name_spec ((const unsigned char *) nm, len) && nm[0] != ':';
+#if MODE == 1
+  if (want)
+    {
+      VF_ASSERT (!ok && err.name && vf_err_is (err.name, DBUS_ERROR_ACCESS_DENIED), "a valid name of up to 255 bytes passes validation in the name-request route (and is then refused by the deny policy)");
+      VF_WITNESS_OPT ("valid long name reached the policy check");
+    }
+  else
+#else
   if (want)
     {
       VF_ASSERT (ok && !err.name, "a valid well-known name is accepted by RequestName / ReleaseName");
@@ -42,9 +59,15 @@ void harness (void)
       VF_WITNESS ("name accepted");
     }
   else
+#endif
     {
       VF_ASSERT (!ok && err.name && vf_err_is (err.name, DBUS_ERROR_INVALID_ARGS), "an invalid, unique or over-long name is refused with InvalidArgs");
       VF_ASSERT (vf_nev == 0 && vf_nhooks == 0 && ht.used[0] == 0, "and changes nothing");
+#if MODE == 1
+      VF_WITNESS_OPT ("name refused");
+#else
       VF_WITNESS ("name refused");
+#endif
     }
+  VF_WITNESS ("end of harness reached");
 }
